@@ -7,9 +7,9 @@ def run(c):
     import clauses
     c.only_clauses = clauses.OWN["C16"]
     obl_kani.run(c, ["k_english_mask", "k_suggestion_full_accessors", "k_suggestion_single_accessors"])
-    if A.validate_assembly_concrete(c):
-        ct = A.conv_table_for([])
-        A.obl_emoji(c, ct, thorough=(c.tier == "thorough"), budget_s=1200)      # phonetic: emoticon / emoji name / English under symbolic ANSI
-        A.obl_fixed_assembly(c, thorough=(c.tier == "thorough"), budget_s=1200)  # fixed: same switches
+    A.validate_assembly_concrete(c)     # a mismatch makes the run inconclusive; the obligations still run, and what they find is reported only after native confirmation
+    ct = A.conv_table_for([])
+    A.obl_emoji(c, ct, thorough=(c.tier == "thorough"), budget_s=1200)      # phonetic: emoticon / emoji name / English under symbolic ANSI
+    A.obl_fixed_assembly(c, thorough=(c.tier == "thorough"), budget_s=1200)  # fixed: same switches
     c.outside("'contains no Bengali-block code point for every dictionary word and suffix-joined form': a statement about poriborton on 159k "
               "concrete strings, not a bounded solver query (the encoder is a tagging stub in the read-out harnesses)")
